@@ -5,6 +5,7 @@ import DaskModel.Lemmas.ChunksRechunk
 import DaskModel.Lemmas.ChunksPlanLemmas
 import DaskModel.Lemmas.ChunksPlanStages
 import DaskModel.Lemmas.ChunksLocate
+import DaskModel.Lemmas.ChunksAutoLemmas
 /-!
 # C23 — chunk normalisation and rechunking are exact (theorems)
 
@@ -102,6 +103,70 @@ example : normalize (.seq [.tup [7, -2]]) [5] none none = .error .value := by rf
 example : normalize (.scalar (.int 0)) [5] none none = .error .zeroDiv := by rfl
 /-- explicit tuples with zero-length chunks pass through (why `normalize_sum_pos` needs `TupGood`) -/
 example : normalize (.seq [.tup [3, 0, 2]]) [5] none none = .ok [[3, 0, 2]] := by rfl
+
+/-! ## Part 1b: `auto_chunks` inside the model (Model/ChunksAuto.lean)
+
+Both branches of `auto_chunks` are transliterated; every quantity the code computes in floating point (`size`,
+`proposed`, `max_chunk_size`, `multiplier < 1`, `multiplier != last_multiplier`) is a *parameter* (`AOracle`), observed
+from the real call by the harness and passed as an exact fraction.  The theorems hold for every value of them. -/
+
+/-- **auto_chunks_post**: whatever the modelled `auto_chunks` returns - for any observed floats, any
+    `previous_chunks` - has one entry per dimension, no negative size, and only tuples that are positive or `(0,)`:
+    the hypotheses `AutoOK` / `TupGood` of `normalize_sum_nonneg` / `normalize_sum_pos` are theorems now. -/
+theorem auto_chunks_post {chunks r : List Spec} {shape : List Nat} {isz : Nat} {prev : Option (List (List Nat))}
+    {o : AOracle} (h1 : ∀ c ∈ chunks, c.isNeg = false) (h2 : TupGood chunks)
+    (h : autoChunks chunks shape isz prev o = .ok r) :
+    r.length = chunks.length ∧ (∀ c ∈ r, c.isNeg = false) ∧ TupGood r := by
+  obtain ⟨l, g⟩ := autoChunks_post (allOK_of h1 h2) h
+  exact ⟨l, g.nonneg, g.tupGood⟩
+
+/-- **normalize_sum_pos_auto** (first sentence of the statement, `"auto"` / byte-string entries included, with or
+    without `previous_chunks`): `normalize_chunks` composed with the modelled `auto_chunks` returns, per dimension,
+    positive sizes (or exactly `(0,)`) adding up to the shape - no hypothesis about `auto_chunks` is left. -/
+theorem normalize_sum_pos_auto {top shape limit chunks isz prev o ar r}
+    (hpre : preNormalize top shape limit = .ok chunks) (hauto : autoChunks chunks shape isz prev o = .ok ar)
+    (h : normalize top shape limit (some ar) = .ok r) (hne : shape ≠ [])
+    (htup : TupGood (expandTop top shape.length)) (hflat : FlatGood (expandTop top shape.length)) :
+    AllDims DimValid r shape := by
+  obtain ⟨l, g1, g2⟩ := auto_chunks_post (preNormalize_nonneg hpre) (preNormalize_tupGood hpre htup hflat) hauto
+  refine normalize_sum_pos h hne ?_ ?_ htup hflat
+  · intro a ha; injection ha with ha; subst ha
+    exact ⟨by rw [l]; exact preNormalize_length hpre hne, g1⟩
+  · intro a ha; injection ha with ha; subst ha; exact g2
+
+/-- **auto_noprev_within_limit** (second clause of the first sentence, branch without `previous_chunks`): if one
+    element fits next to the explicitly chunked dimensions (`itemsize * largest_block <= limit`) and the integer part
+    of the observed `size = (limit / itemsize / largest_block) ** (1 / k)` of every recursion level does not exceed
+    the exact root (`SizesSound`: `int(size) ^ k * itemsize * largest_block <= limit`; checked on every observed value -
+    it fails only when the float root crosses an integer from below), then no dimension is left `"auto"` and the largest block of the
+    result is within the byte limit.  (Invariant over the recursion `return auto_chunks(chunks, shape, limit, dtype)`:
+    one element still fits after the small dimensions are fixed to their full length.) -/
+theorem auto_noprev_within_limit {limit isz : Nat} {shape : List Nat} {chunks r : List Spec} {o : AOracle}
+    (h : autoChunks chunks shape isz none o = .ok r) (hs : SizesSound limit isz shape chunks o.sizes)
+    (hfit : isz * largestBlockSpec chunks ≤ limit) : hasAuto r = false ∧ isz * largestBlockSpec r ≤ limit := by
+  unfold autoChunks at h
+  split at h
+  · injection h with h; subst h
+    rename_i hna
+    exact ⟨by simpa using hna, hfit⟩
+  · split at h
+    · cases h
+    · exact autoNoPrev_limit limit isz shape o.sizes chunks r h hs hfit
+
+/-- non-vacuity. `normalize_chunks(("auto", "auto"), (20, 30), limit=64, dtype="i4")`: observed `size = 4.0` -/
+example : autoChunks [.auto, .auto] [20, 30] 4 none ⟨[⟨4, 1⟩], false, [], []⟩ = .ok [.int 4, .int 4] := by rfl
+example : SizesSound 64 4 [20, 30] [.auto, .auto] [⟨4, 1⟩] ∧ 4 * largestBlockSpec [.auto, .auto] ≤ 64 := by
+  refine ⟨sizesSoundB_sound _ _ _ _ _ (by decide), by decide⟩
+/-- a small dimension is fixed to its full length first (`shape[1] = 2 < size = 4`), then `size = 8` -/
+example : autoChunks [.auto, .auto, .int 2] [20, 2, 4] 1 none ⟨[⟨4, 1⟩, ⟨8, 1⟩], false, [], []⟩ =
+    .ok [.int 8, .tup [2], .int 2] := by rfl
+/-- the known finding: `normalize_chunks(["auto"], (8,), limit=16, dtype="i4", previous_chunks=((5, 3),))` observes
+    `proposed = 4.0`, `max_chunk_size = 5.0`, keeps `(5, 3)` (20 bytes > 16: within the documented tolerance) -/
+example : autoChunks [.auto] [8] 4 (some [[5, 3]]) ⟨[], false, [⟨⟨4, 1⟩, ⟨5, 1⟩⟩], []⟩ = .ok [.tup [5, 3]] := by rfl
+/-- the proportional-shrink loop (`reduce_case`): two rounds, the second leaves the multiplier unchanged -/
+example : autoChunks [.auto, .auto] [100, 50] 1 (some [[10, 10, 10, 10, 10, 10, 10, 10, 10, 10], [5, 5, 5, 5, 5, 5, 5, 5, 5, 5]])
+    ⟨[], true, [⟨⟨89, 10⟩, ⟨10, 1⟩⟩, ⟨⟨44, 10⟩, ⟨5, 1⟩⟩, ⟨⟨89, 10⟩, ⟨10, 1⟩⟩, ⟨⟨44, 10⟩, ⟨5, 1⟩⟩], [true, false]⟩ =
+    .ok [.int 8, .int 4] := by rfl
 
 /-! ## Part 2: planner arithmetic (`divide_to_width`, `merge_to_number` fast path) -/
 
